@@ -258,14 +258,27 @@ func c07Run(c *core.Ctx) {
 		{AllowChars: "abc", RequireSets: []string{"ab", "bc"}},
 		{RequireSets: []string{"ab", "ba"}},
 		{Allow: ref.Uppers | ref.Lowers | ref.Digits | ref.Symbols},
-		{AllowChars: "abcdefghijklmnop"}, // 16^L, no requirement
+		{AllowChars: "abcdefghijklmnop"},                              // 16^L, no requirement
+		{Allow: ref.Letters | ref.Digits, RequireSets: []string{"q"}}, // one required character among 62
 	}
+	big20k := ""
+	for i := 0; i < 20000; i++ {
+		big20k += string(rune(0x4e00 + i))
+	}
+	dense = append(dense, ref.CharRecipe{AllowChars: big20k, RequireSets: []string{"Ω"}}) // one among 20001
 	maxL := 200
 	if c.Thorough() {
 		maxL = 700
 	}
+	sparse := map[int]bool{255: true, 256: true, 257: true, 300: true, 400: true, 512: true, 600: true, 1000: true, 1023: true, 1024: true, 1025: true, 2000: true, 4096: true}
 	for _, r := range dense {
-		for L := 1; L <= maxL; L++ {
+		for L := 1; L <= 4096; L++ {
+			if L > maxL && !sparse[L] {
+				continue
+			}
+			if len(r.AllowChars) > 1000 && L > 20 && !sparse[L] {
+				continue
+			}
 			if c.Mine() {
 				rr := r
 				rr.Length = L
